@@ -7,9 +7,10 @@ their counterexamples and `split_pinned_eq_repaired` are in the section "the pin
 wntr/morph/skel.py plus the cycle loop of `run`.  Theorems hold for every network state, pipe, fraction, end, vertex list,
 threshold, exclusion list and every sequence of skeletonization steps.
 
-Statements that are FALSE of the code are kept as `def … : Prop` with a counterexample and a `_partial`:
-`SplitHydraulicsUnchanged` (minor loss copied to both parts), `SplitStatusUnchanged` (a CLOSED pipe opened by a control: the new
-part has no control), `SplitNewPipeNoCvPinned` / `SplitTotalPinned` (repaired by the two patches).
+Statements that were FALSE of the code before a repair are kept as `def … : Prop` with a counterexample (and a `_partial`):
+`SplitHydraulicsUnchangedCopying` (minor loss copied to both parts), `SplitStatusUnchangedCopying` (a CLOSED pipe opened by a
+control: the new part has no control) — both repaired by fixes/C19-split-neutral-new-pipe.patch —, `SplitNewPipeNoCvPinned` /
+`SplitTotalPinned` (repaired by e5243fc2, 619975e2).
 -/
 import WntrModel.Model.Morph
 import WntrModel.Lemmas.MorphSkel
@@ -59,8 +60,8 @@ def splitResult (net : Net) (p : Pipe) (s e : Node) (pipeName newPipe : String) 
   let j1 := if isBreak then newJ.getD 1 "" else j0
   let old : Pipe := if atEnd then { p with b := j0, length := p.length * f, verts := fv }
                     else { p with a := j0, length := p.length * (1 - f), verts := lv }
-  let new : Pipe := if atEnd then { p with name := newPipe, a := j1, b := e.name, length := p.length * (1 - f), initStatus := p.status, cv := false, verts := lv }
-                    else { p with name := newPipe, a := s.name, b := j1, length := p.length * f, initStatus := p.status, cv := false, verts := fv }
+  let new : Pipe := if atEnd then { p with name := newPipe, a := j1, b := e.name, length := p.length * (1 - f), minor := 0, initStatus := 1, status := 1, cv := false, verts := lv }
+                    else { p with name := newPipe, a := s.name, b := j1, length := p.length * f, minor := 0, initStatus := 1, status := 1, cv := false, verts := fv }
   { nodes := net.nodes ++ newJ.map (fun j => newJunction j elev xy),
     pipes := (net.pipes.map fun q => if q.name == pipeName then old else q) ++ [new],
     others := net.others }
@@ -74,8 +75,8 @@ def oldPart : Pipe := if atEnd then { p with b := newJ.headD "", length := p.len
                     else { p with a := newJ.headD "", length := p.length * (1 - f), verts := lv }
 def newPart : Pipe :=
   let j1 := if isBreak then newJ.getD 1 "" else newJ.headD ""
-  if atEnd then { p with name := newPipe, a := j1, b := e.name, length := p.length * (1 - f), initStatus := p.status, cv := false, verts := lv }
-  else { p with name := newPipe, a := s.name, b := j1, length := p.length * f, initStatus := p.status, cv := false, verts := fv }
+  if atEnd then { p with name := newPipe, a := j1, b := e.name, length := p.length * (1 - f), minor := 0, initStatus := 1, status := 1, cv := false, verts := lv }
+  else { p with name := newPipe, a := s.name, b := j1, length := p.length * f, minor := 0, initStatus := 1, status := 1, cv := false, verts := fv }
 
 theorem splitResult_pipes :
     (splitResult net p s e pipeName newPipe newJ atEnd f isBreak xy fv lv).pipes
@@ -88,16 +89,21 @@ theorem split_preserves_length :
     (oldPart p newJ atEnd f fv lv).length + (newPart p s e newPipe newJ atEnd f isBreak fv lv).length = p.length := by
   cases atEnd <;> simp [oldPart, newPart] <;> ring
 
-/-- **the new pipe has no check valve** (repaired code) and the documented copies of the original's attributes -/
+/-- **the new pipe has no check valve**, no minor loss and is open (repaired code); diameter and roughness are the original's -/
 theorem split_new_pipe_no_cv :
     (newPart p s e newPipe newJ atEnd f isBreak fv lv).cv = false ∧
     (newPart p s e newPipe newJ atEnd f isBreak fv lv).diam = p.diam ∧
     (newPart p s e newPipe newJ atEnd f isBreak fv lv).rough = p.rough ∧
-    (newPart p s e newPipe newJ atEnd f isBreak fv lv).minor = p.minor ∧
-    (newPart p s e newPipe newJ atEnd f isBreak fv lv).status = p.status ∧
-    (newPart p s e newPipe newJ atEnd f isBreak fv lv).initStatus = p.status ∧
+    (newPart p s e newPipe newJ atEnd f isBreak fv lv).minor = 0 ∧
+    (newPart p s e newPipe newJ atEnd f isBreak fv lv).status = 1 ∧
+    (newPart p s e newPipe newJ atEnd f isBreak fv lv).initStatus = 1 ∧
     (newPart p s e newPipe newJ atEnd f isBreak fv lv).name = newPipe := by
   cases atEnd <;> simp [newPart]
+
+/-- the minor loss coefficient of the pipe is kept in total (it stays with the original part) -/
+theorem split_preserves_minor :
+    (oldPart p newJ atEnd f fv lv).minor + (newPart p s e newPipe newJ atEnd f isBreak fv lv).minor = p.minor := by
+  cases atEnd <;> simp [oldPart, newPart]
 
 /-- the original pipe keeps its name, check valve, diameter, roughness, minor loss and status -/
 theorem split_old_pipe_keeps :
@@ -362,57 +368,60 @@ theorem series_headloss_additive (k L f φ : Rat) :
     hwResistance k (L * f) * φ + hwResistance k (L * (1 - f)) * φ = hwResistance k L * φ := by
   unfold hwResistance; ring
 
-/-- minor loss coefficient `K` is COPIED to both parts: the minor head loss `m·K·q²` doubles -/
-theorem split_minor_loss_doubles (m K q : Rat) : m * K * q ^ 2 + m * K * q ^ 2 = 2 * (m * K * q ^ 2) := by ring
-
-/-- head loss across the original pipe and across its two parts at the same flow -/
+/-- head loss across the original pipe and across its two parts (minor loss coefficients `K₀` on the original part, `K₁` on the new
+part) at the same flow -/
 def headlossBefore (k L m K φ q : Rat) : Rat := hwResistance k L * φ + m * K * q ^ 2
-def headlossAfter (k L f m K φ q : Rat) : Rat :=
-  (hwResistance k (L * f) * φ + m * K * q ^ 2) + (hwResistance k (L * (1 - f)) * φ + m * K * q ^ 2)
+def headlossAfter (k L f m K₀ K₁ φ q : Rat) : Rat :=
+  (hwResistance k (L * f) * φ + m * K₀ * q ^ 2) + (hwResistance k (L * (1 - f)) * φ + m * K₁ * q ^ 2)
 
-/-- the full statement "splitting leaves the hydraulics unchanged" at the level of the split pipe -/
-def SplitHydraulicsUnchanged : Prop :=
-  ∀ k L f m K φ q : Rat, 0 ≤ f → f ≤ 1 → 0 < m → headlossAfter k L f m K φ q = headlossBefore k L m K φ q
+/-- **splitting leaves the head loss of the pipe unchanged** (repaired code: the minor loss stays with the original part, the new
+part has none), for every resistance factor, length, fraction, minor loss, flow law value and flow -/
+theorem split_hydraulics_unchanged (k L f m K φ q : Rat) : headlossAfter k L f m K 0 φ q = headlossBefore k L m K φ q := by
+  unfold headlossAfter headlossBefore hwResistance; ring
 
-/-- FALSE: a pipe with a minor loss coefficient loses twice the minor head after a split -/
-theorem split_hydraulics_unchanged_counterexample : ¬ SplitHydraulicsUnchanged := by
+example : headlossAfter 2 100 (1 / 4) 3 5 0 5 7 = headlossBefore 2 100 3 5 5 7 := by norm_num [headlossAfter, headlossBefore, hwResistance]
+
+/-- the statement for the code BEFORE fixes/C19-split-neutral-new-pipe.patch, which copies `K` to both parts -/
+def SplitHydraulicsUnchangedCopying : Prop :=
+  ∀ k L f m K φ q : Rat, 0 ≤ f → f ≤ 1 → 0 < m → headlossAfter k L f m K K φ q = headlossBefore k L m K φ q
+
+/-- FALSE: a pipe with a minor loss coefficient loses twice the minor head after such a split -/
+theorem split_hydraulics_unchanged_copying_counterexample : ¬ SplitHydraulicsUnchangedCopying := by
   intro h
   have := h 1 1 (1 / 2) 1 1 1 1 (by norm_num) (by norm_num) (by norm_num)
   norm_num [headlossAfter, headlossBefore, hwResistance] at this
 
-theorem split_hydraulics_unchanged_partial (k L f m φ q : Rat) :
-    headlossAfter k L f m 0 φ q = headlossBefore k L m 0 φ q := by
+theorem split_hydraulics_unchanged_copying_partial (k L f m φ q : Rat) :
+    headlossAfter k L f m 0 0 φ q = headlossBefore k L m 0 φ q := by
   unfold headlossAfter headlossBefore hwResistance; ring
-
-example : headlossAfter 2 100 (1 / 4) 3 0 5 7 = headlossBefore 2 100 3 0 5 7 := by norm_num [headlossAfter, headlossBefore, hwResistance]
 
 /-! #### status of the two parts under controls
 
-"No controls are added to the new pipe; the original pipe keeps any controls" and "the new pipe has the same base status": the
-original part follows the control schedule `ctl t`, the new part keeps the status `init` it was created with; water passes the
-series iff both parts are open. -/
+"No controls are added to the new pipe; the original pipe keeps any controls": the original part follows the control schedule
+`ctl t`, the new part keeps the status it was created with; water passes the series iff both parts are open. -/
 
 def seriesOpen (oldOpen newOpen : Bool) : Bool := oldOpen && newOpen
 
-/-- the full statement: at every time the two parts in series are open exactly when the unsplit pipe would be -/
-def SplitStatusUnchanged : Prop := ∀ (init : Bool) (ctl : Nat → Bool) (t : Nat), seriesOpen (ctl t) init = ctl t
+/-- **the split pipe is open exactly when the unsplit pipe would be** (repaired code: the new part is created OPEN), for every
+initial status and control schedule -/
+theorem split_status_unchanged (ctl : Nat → Bool) (t : Nat) : seriesOpen (ctl t) true = ctl t := by
+  simp [seriesOpen]
+
+example : seriesOpen ((fun t => decide (1 ≤ t)) 1) true = true := by decide
+
+/-- the statement for the code before the patch, where the new part copies the initial status `init` -/
+def SplitStatusUnchangedCopying : Prop := ∀ (init : Bool) (ctl : Nat → Bool) (t : Nat), seriesOpen (ctl t) init = ctl t
 
 /-- FALSE: an initially CLOSED pipe that a control opens at `t = 1` stays blocked by its new, control-less, closed part -/
-theorem split_status_unchanged_counterexample : ¬ SplitStatusUnchanged := by
+theorem split_status_unchanged_copying_counterexample : ¬ SplitStatusUnchangedCopying := by
   intro h
   have := h false (fun t => decide (1 ≤ t)) 1
   revert this; decide
 
-/-- true for every control schedule when the pipe is initially open (a control that closes the original part closes the series) -/
-theorem split_status_unchanged_partial (ctl : Nat → Bool) (t : Nat) : seriesOpen (ctl t) true = ctl t := by
-  simp [seriesOpen]
-
-example : seriesOpen ((fun t => decide (t < 3)) 5) true = (fun t => decide (t < 3)) 5 := by decide
-
 /-! ### the pinned code -/
 
 /-- `_split_or_break_pipe` AS PINNED: `junction_coordinates` unbound before the loop, `pipe.check_valve` passed on -/
-def splitPinned := splitCore false (fun p => p.cv)
+def splitPinned := splitCore false (fun p => p.cv) (fun _ => 0) (fun _ => 1)
 
 def demoNet (cv : Bool) (verts : List Pt) : Net :=
   { nodes := [⟨"A", .junction, 10, (0, 0)⟩, ⟨"B", .junction, 20, (10, 0)⟩],
